@@ -37,6 +37,13 @@ import (
 // "unknown" - Fill is documented as setting all variables, what happens to values assigned or
 // inherited before it is not specified, so nothing is asserted for them until they are set again.
 //
+// Shared caller maps: a case has a small pool of map[string]any objects (values M0ka, M1kb, ...).
+// A Fill of kind "shared" passes the SAME Go map object, possibly to several live nodes and
+// several times. Each node still sees only its own Fill + Assign layer, and the caller's maps
+// must stay deep-equal to a pristine copy after every operation. Cases are also generated
+// without any config file (nocfg) and with pages that have no front-matter; a key that no source
+// defines is then only checked for "shows none of the case's values".
+//
 // After every operation every live node is observed (Get of each key, and a render: Render for
 // loaded nodes, RenderString for the others) and
 //   - each known key must show the model's value in Get, {{ k }}, {{ k + '' }}, :data-x="k" and
@@ -54,7 +61,8 @@ type Op struct {
 	Op   string   `json:"op"`             // new | load | fill | assign | render | get
 	Node int      `json:"node"`           // live node the op is applied to (0 = root); taken modulo the live count
 	Page int      `json:"page,omitempty"` // load: which page
-	Kind string   `json:"kind,omitempty"` // fill: map | struct | ptr
+	Kind string   `json:"kind,omitempty"` // fill: map | struct | ptr | shared (a map object of the case's pool)
+	Pool int      `json:"pool,omitempty"` // fill/shared: which pool map
 	Keys []string `json:"keys,omitempty"` // fill: the keys the argument defines
 	Key  string   `json:"key,omitempty"`  // assign / get
 }
@@ -64,7 +72,19 @@ type CaseB struct {
 	A     []string   `json:"a,omitempty"` // keys defined in data/a.yml
 	B     []string   `json:"b,omitempty"` // keys defined in data/b.yml
 	Pages [][]string `json:"pages"`       // keys defined in the front-matter of p0, p1, p2
+	NoCfg bool       `json:"nocfg,omitempty"` // the filesystem has no theme.yml and no data/ directory
+	Pool  [][]string `json:"pool,omitempty"`  // keys of each shared caller map (values M<j><key>)
 	Ops   []Op       `json:"ops"`
+}
+
+func (c CaseB) poolKeys(j int) []string {
+	if len(c.Pool) == 0 {
+		return nil
+	}
+	if j < 0 {
+		j = -j
+	}
+	return c.Pool[j%len(c.Pool)]
 }
 
 func inList(l []string, s string) bool {
@@ -89,9 +109,14 @@ func (c CaseB) candidates(k string) []string {
 	for i := 0; i < nPages; i++ {
 		out = append(out, fmt.Sprintf("P%d%s", i, k))
 	}
+	for j, keys := range c.Pool {
+		if inList(keys, k) {
+			out = append(out, fmt.Sprintf("M%d%s", j, k))
+		}
+	}
 	for i, op := range c.Ops {
 		switch {
-		case op.Op == "fill" && inList(op.Keys, k):
+		case op.Op == "fill" && op.Kind != "shared" && inList(op.Keys, k):
 			out = append(out, fmt.Sprintf("F%d%s", i, k))
 		case op.Op == "assign" && op.Key == k:
 			out = append(out, fmt.Sprintf("S%d%s", i, k))
@@ -104,7 +129,11 @@ func (c CaseB) body() string {
 	var b strings.Builder
 	b.WriteString("<div>\n")
 	for _, k := range keysB {
-		fmt.Fprintf(&b, `<i data-m="i-%s">{{ %s }}</i><i data-m="e-%s">{{ %s + '' }}</i><i data-m="a-%s" :data-x="%s">x</i>`, k, k, k, k, k, k)
+		ex := k + " + ''"
+		if c.NoCfg {
+			ex = k + " == nil ? '' : " + k + " + ''" // a key may be undefined here; arithmetic on nil is unspecified
+		}
+		fmt.Fprintf(&b, `<i data-m="i-%s">{{ %s }}</i><i data-m="e-%s">{{ %s }}</i><i data-m="a-%s" :data-x="%s">x</i>`, k, k, k, ex, k, k)
 		for _, t := range c.candidates(k) {
 			fmt.Fprintf(&b, `<b data-m="c-%s" data-t="%s" v-if="%s == '%s'">x</b>`, k, t, k, t)
 		}
@@ -126,9 +155,11 @@ func (c CaseB) files() map[string]string {
 			fmt.Fprintf(&bb, "%s: B%s\n", k, k)
 		}
 	}
-	f["theme.yml"] = th.String()
-	f["data/a.yml"] = a.String() + "onlya: x\n"
-	f["data/b.yml"] = bb.String() + "onlyb: x\n"
+	if !c.NoCfg {
+		f["theme.yml"] = th.String()
+		f["data/a.yml"] = a.String() + "onlya: x\n"
+		f["data/b.yml"] = bb.String() + "onlyb: x\n"
+	}
 	body := c.body()
 	for i := 0; i < nPages; i++ {
 		fm := ""
@@ -203,14 +234,26 @@ type modelB struct {
 	nodes []*mnode
 }
 
-func (m *modelB) resolve(n *mnode, k string) (string, bool) {
+const (
+	stAbsent  = iota // no source defines the key
+	stKnown          // the model knows the value
+	stUnknown        // unspecified (set before a later Fill that does not mention it)
+)
+
+func (m *modelB) resolve(n *mnode, k string) (string, int) {
 	if v, ok := n.fm[k]; ok {
-		return v, true
+		return v, stKnown
 	}
 	if c, ok := n.call[k]; ok {
-		return c.v, c.known
+		if c.known {
+			return c.v, stKnown
+		}
+		return "", stUnknown
 	}
-	return m.cfg[k], true
+	if v, ok := m.cfg[k]; ok {
+		return v, stKnown
+	}
+	return "", stAbsent
 }
 
 // child copies what the parent resolves from its front-matter and call layer.
@@ -293,6 +336,9 @@ func describeOp(i int, op Op, node int) string {
 	case "load":
 		return fmt.Sprintf("op %d: node%d.Load(p%d.vuego)", i, node, op.Page)
 	case "fill":
+		if op.Kind == "shared" {
+			return fmt.Sprintf("op %d: node%d.Fill(shared map #%d)", i, node, op.Pool)
+		}
 		return fmt.Sprintf("op %d: node%d.Fill(%s with keys %v)", i, node, op.Kind, op.Keys)
 	case "assign":
 		return fmt.Sprintf("op %d: node%d.Assign(%q)", i, node, op.Key)
@@ -310,12 +356,34 @@ func checkB(c CaseB) error {
 	fsys := memfs.FromMap(c.files())
 	m := &modelB{cfg: map[string]string{}}
 	for _, k := range keysB {
+		if c.NoCfg {
+			break
+		}
 		m.cfg[k] = "T" + k
 		if inList(c.A, k) {
 			m.cfg[k] = "A" + k
 		}
 		if inList(c.B, k) {
 			m.cfg[k] = "B" + k // data/ files load in alphabetical order, later files override
+		}
+	}
+	// the shared caller maps and their pristine copies
+	pool := make([]map[string]any, len(c.Pool))
+	pristine := make([]map[string]any, len(c.Pool))
+	for j, keys := range c.Pool {
+		pool[j], pristine[j] = map[string]any{}, map[string]any{}
+		for _, k := range keys {
+			if inList(keysB, k) {
+				pool[j][k] = fmt.Sprintf("M%d%s", j, k)
+				pristine[j][k] = fmt.Sprintf("M%d%s", j, k)
+			}
+		}
+	}
+	cands := map[string]map[string]bool{}
+	for _, k := range keysB {
+		cands[k] = map[string]bool{}
+		for _, tok := range c.candidates(k) {
+			cands[k][tok] = true
 		}
 	}
 	live := []vuego.Template{vuego.NewFS(fsys)}
@@ -330,8 +398,21 @@ func checkB(c CaseB) error {
 				return fmt.Errorf("%s: rendering node%d failed: %s\nhistory: %s", when, ni, o.Err, strings.Join(history, " | "))
 			}
 			for _, k := range keysB {
-				want, known := m.resolve(mn, k)
-				if !known {
+				want, st := m.resolve(mn, k)
+				if st == stUnknown {
+					continue
+				}
+				if st == stAbsent {
+					// defined by no source: what an undefined variable prints is not asserted, but it
+					// must not show a value that belongs to some source or some other node
+					for _, got := range []string{o.Get[k], o.Marks["i-"+k], o.Marks["e-"+k], o.Marks["a-"+k]} {
+						if cands[k][got] {
+							return fmt.Errorf("%s: node%d: %q shows %q although no source defines it for this node (node shows: %s)\nhistory: %s", when, ni, k, got, o, strings.Join(history, " | "))
+						}
+					}
+					if o.Marks["c-"+k] != "" {
+						return fmt.Errorf("%s: node%d: v-if %s == %q holds although no source defines %s for this node\nhistory: %s", when, ni, k, o.Marks["c-"+k], k, strings.Join(history, " | "))
+					}
 					continue
 				}
 				for _, p := range [][2]string{{"Get", o.Get[k]}, {"{{ " + k + " }}", o.Marks["i-"+k]}, {"{{ " + k + " + '' }}", o.Marks["e-"+k]}, {":data-x=" + k, o.Marks["a-"+k]}, {"the v-if comparisons that hold for " + k, o.Marks["c-"+k]}} {
@@ -384,12 +465,27 @@ func checkB(c CaseB) error {
 			created = true
 		case "fill":
 			vs := map[string]string{}
-			for _, k := range op.Keys {
-				if inList(keysB, k) {
-					vs[k] = fmt.Sprintf("F%d%s", i, k)
+			if op.Kind == "shared" {
+				if len(pool) == 0 {
+					return fmt.Errorf("malformed case: shared fill without a pool")
 				}
+				j := op.Pool
+				if j < 0 {
+					j = -j
+				}
+				j %= len(pool)
+				for k := range pristine[j] {
+					vs[k] = fmt.Sprintf("M%d%s", j, k)
+				}
+				t.Fill(pool[j]) // the same map object every time
+			} else {
+				for _, k := range op.Keys {
+					if inList(keysB, k) {
+						vs[k] = fmt.Sprintf("F%d%s", i, k)
+					}
+				}
+				t.Fill(fillValue(op.Kind, vs))
 			}
-			t.Fill(fillValue(op.Kind, vs))
 			for k := range mn.call {
 				mn.call[k] = mval{known: false}
 			}
@@ -417,6 +513,12 @@ func checkB(c CaseB) error {
 		}
 		now := snapshot()
 		when := "after " + history[len(history)-1]
+		// the caller's maps handed to Fill belong to the caller
+		for j := range pool {
+			if !reflect.DeepEqual(pool[j], pristine[j]) {
+				return fmt.Errorf("%s: the caller's map #%d that was passed to Fill has been modified: now %v, was %v\nhistory: %s", when, j, pool[j], pristine[j], strings.Join(history, " | "))
+			}
+		}
 		// isolation: nobody but the target (and the node just created) may look different
 		for j := range prev {
 			if j == ni && (op.Op == "fill" || op.Op == "assign") {
@@ -457,8 +559,24 @@ func genB(rec *ev.Rec) func(*rapid.T) CaseB {
 
 func genHistory(t *rapid.T, rec *ev.Rec, avoidFM bool) CaseB {
 	c := CaseB{A: genSubset(t, "a-"), B: genSubset(t, "b-")}
+	c.NoCfg = rapid.Bool().Draw(t, "nocfg")
+	if c.NoCfg {
+		c.A, c.B = nil, nil
+	}
+	plain := rapid.Bool().Draw(t, "plain-pages") // no page has front-matter
 	for i := 0; i < nPages; i++ {
-		c.Pages = append(c.Pages, genSubset(t, fmt.Sprintf("p%d-", i)))
+		keys := genSubset(t, fmt.Sprintf("p%d-", i))
+		if plain {
+			keys = nil
+		}
+		c.Pages = append(c.Pages, keys)
+	}
+	for j := 0; j < 2; j++ {
+		keys := genSubset(t, fmt.Sprintf("pool%d-", j))
+		if len(keys) == 0 {
+			keys = []string{keysB[j]}
+		}
+		c.Pool = append(c.Pool, keys)
 	}
 	n := rapid.IntRange(1, 12).Draw(t, "nops")
 	liveN := 1
@@ -475,8 +593,12 @@ func genHistory(t *rapid.T, rec *ev.Rec, avoidFM bool) CaseB {
 			liveN++
 			pageOf = append(pageOf, op.Page)
 		case "fill":
-			op.Kind = rapid.SampledFrom([]string{"map", "struct", "ptr"}).Draw(t, "kind")
-			op.Keys = genSubset(t, "fill-")
+			op.Kind = rapid.SampledFrom([]string{"shared", "shared", "shared", "map", "struct", "ptr"}).Draw(t, "kind")
+			if op.Kind == "shared" {
+				op.Pool = rapid.IntRange(0, len(c.Pool)-1).Draw(t, "pool")
+			} else {
+				op.Keys = genSubset(t, "fill-")
+			}
 		case "get":
 			op.Key = rapid.SampledFrom(keysB).Draw(t, "key")
 		case "assign":
@@ -509,9 +631,38 @@ func classifyB(c CaseB) (bool, []string) {
 		mutated bool // a Fill/Assign happened on it or an ancestor before now
 		loaded  bool
 		page    int
+		shared  int // index+1 of the shared map it was last filled with (0 = none)
 	}
 	nodes := []info{{parent: -1}}
 	nt := false
+	if c.NoCfg {
+		cls["no-config-files"] = true
+	} else {
+		cls["with-config-files"] = true
+	}
+	plain := true
+	for _, p := range c.Pages {
+		if len(p) > 0 {
+			plain = false
+		}
+	}
+	if plain {
+		cls["pages-without-front-matter"] = true
+	}
+	// holders reports whether another live node currently holds the same shared map (and whether
+	// one of them has no front-matter: not loaded, or a page without front-matter)
+	holders := func(ni int) (bool, bool) {
+		if nodes[ni].shared == 0 {
+			return false, false
+		}
+		noFM := func(n info) bool { return !n.loaded || len(c.pageKeys(n.page)) == 0 }
+		for j, n := range nodes {
+			if j != ni && n.shared == nodes[ni].shared {
+				return true, noFM(n) && noFM(nodes[ni])
+			}
+		}
+		return false, false
+	}
 	for _, op := range c.Ops {
 		ni := op.Node % len(nodes)
 		switch op.Op {
@@ -546,8 +697,27 @@ func classifyB(c CaseB) (bool, []string) {
 			}
 			if op.Op == "fill" {
 				cls["fill="+op.Kind] = true
-				if len(op.Keys) == 0 {
-					cls["fill-empty"] = true
+				if op.Kind == "shared" {
+					nodes[ni].shared = op.Pool%max(len(c.Pool), 1) + 1
+					if also, _ := holders(ni); also {
+						cls["same-map-filled-into->=2-live-nodes"] = true
+					}
+				} else {
+					nodes[ni].shared = 0
+					if len(op.Keys) == 0 {
+						cls["fill-empty"] = true
+					}
+				}
+			}
+			if op.Op == "assign" {
+				if nodes[ni].shared != 0 {
+					cls["assign-after-shared-fill"] = true
+				}
+				if also, bare := holders(ni); also {
+					cls["assign-while-another-node-holds-the-same-map"] = true
+					if bare && c.NoCfg {
+						cls["assign-while-sharing,no-config,no-front-matter"] = true
+					}
 				}
 			}
 			if nodes[ni].loaded {
